@@ -3,7 +3,7 @@
 Usage: trymutant.py <patch.diff> <tier> <ID> [<ID>...]"""
 import subprocess, sys, os, json, time
 patch, tier, ids = os.path.abspath(sys.argv[1]), sys.argv[2], sys.argv[3:]
-COPY = "/tmp/mutrepo"
+COPY = os.environ.get("MUTREPO", "/tmp/mutrepo")
 def sh(cmd, **kw):
     return subprocess.run(cmd, shell=True, stdout=subprocess.PIPE, stderr=subprocess.STDOUT, text=True, **kw)
 head = sh("git -C /repo rev-parse HEAD").stdout.strip()
